@@ -12,7 +12,7 @@ use vcore::rt::{self, digest_str, esc, Acc, Args, Report};
 use vcore::sgr::{self, MColor, MStyle, ANSI_COLORS};
 use vcore::vt;
 
-const RULE: &str = "Cases: (fg, bg) over all 17 x 17 pairs (None + 16 palette colours) x data (empty, plain text, escape-rich G-STREAM data up to a few KiB, printable runs of 64..200 KiB) x inner-writer plan: accept everything; accept only a prefix of the data (every prefix length for short data); fail with Interrupted/WouldBlock/Other at the k-th inner write, k = 1..=4; through ansi::write_colored and WinconStream::write_colored on Vec<u8>, File, &mut dyn Write, Box<dyn Write>. Oracle: output = P . data[..n] . S where P consists solely of SGR sequences that set exactly (fg, bg) from the default state, S solely of SGR sequences restoring the default state, both empty when no colour is given; return value n = data bytes accepted; strip(output) == strip(data[..n]); on an injected error the call returns Err of that kind and the visible text of what was emitted is a prefix of the data's. Non-trivial = at least one colour and non-empty data (distinct by case).";
+const RULE: &str = "Cases: (fg, bg) over all 17 x 17 pairs (None + 16 palette colours) x data (empty, plain text, escape-rich G-STREAM data up to a few KiB, printable runs of 64..200 KiB) x inner-writer plan: accept everything; accept only a prefix of the data (every prefix length for short data); fail with Interrupted/WouldBlock/Other at the k-th inner write, k = 1..=4; accept at most 1..9 bytes per inner write whatever it carries (codes, data, reset); through ansi::write_colored and WinconStream::write_colored on Vec<u8>, File, &mut dyn Write, Box<dyn Write>. Oracle: output = P . data[..n] . S where P consists solely of SGR sequences that set exactly (fg, bg) from the default state, S solely of SGR sequences restoring the default state, both empty when no colour is given; return value n = data bytes accepted; strip(output) == strip(data[..n]); on an injected error the call returns Err of that kind and the visible text of what was emitted is a prefix of the data's. Non-trivial = at least one colour and non-empty data (distinct by case).";
 
 #[derive(Clone, Copy, Debug, Serialize, Deserialize, PartialEq)]
 enum Plan {
@@ -21,6 +21,9 @@ enum Plan {
     DataPrefix(usize),
     /// the k-th inner write (1-based) fails with this kind (0 Interrupted, 1 WouldBlock, 2 Other)
     FailAt(usize, u8),
+    /// every inner write - codes, data and reset alike - accepts at most this many bytes (>= 1): a
+    /// legal, never-failing writer
+    Trickle(usize),
 }
 
 #[derive(Clone, Debug, Serialize, Deserialize)]
@@ -84,6 +87,7 @@ impl Write for PlanWriter {
         let n = match self.plan {
             // the planned short count applies to the first data write
             Plan::DataPrefix(n) if first_data_call => n.min(buf.len()),
+            Plan::Trickle(k) => k.max(1).min(buf.len()),
             _ => buf.len(),
         };
         if is_data_call {
@@ -173,7 +177,7 @@ fn check(case: &Case) -> Result<bool, String> {
     };
     let plog = plog.borrow();
     // data that also occurs inside the colour codes cannot be told from them by content
-    if !data.is_empty() && coloured && matches!(plan, Plan::DataPrefix(_) | Plan::FailAt(..)) && full.windows(data.len()).filter(|w| *w == data.as_slice()).count() > 1 {
+    if !data.is_empty() && coloured && matches!(plan, Plan::DataPrefix(_) | Plan::FailAt(..) | Plan::Trickle(_)) && full.windows(data.len()).filter(|w| *w == data.as_slice()).count() > 1 {
         return Ok(false);
     }
     if let Plan::FailAt(k, kind) = plan {
@@ -263,6 +267,7 @@ fn arb_case() -> impl Strategy<Value = Case> {
             3 => Just(Plan::AcceptAll),
             3 => any::<u16>().prop_map(|f| Plan::DataPrefix(f as usize)),
             3 => (1usize..=4, 0u8..3).prop_map(|(k, e)| Plan::FailAt(k, e)),
+            2 => (1usize..=9).prop_map(Plan::Trickle),
         ],
         prop_oneof![3 => 0u8..3, 1 => Just(3u8), 1 => Just(4u8)],
     )
@@ -317,6 +322,9 @@ fn run(args: &Args, rep: &mut Report) {
                         for e in 0..3 {
                             plans.push(Plan::FailAt(k, e));
                         }
+                    }
+                    for k in [1usize, 2, 3, 4, 5, 7] {
+                        plans.push(Plan::Trickle(k));
                     }
                     for plan in plans {
                         for target in 0..5u8 {
